@@ -244,6 +244,10 @@ class Ctx:
                 self._run_one(name, check, self.replay['case'])
             return
         seen = set()
+        if self.shard is None or self.shard[0] == 0:
+            for case in load_regress(self.prop, name):
+                self.record(case, True, ('regress',))
+                self._run_one(name, check, case)
         for i, case in enumerate(cases):
             if not self.mine(i):
                 continue
